@@ -206,9 +206,10 @@ func userParamIndex(g *Gen, f *ast.File, fd *ast.FuncDecl) map[int]string {
 // authzReached: which authorizers a function reaches with the user value held in `param`:
 //   "admin"  — `if !<user>.AuthorizeUnrestricted() { … return }`
 //   "write"  — h.WriteAuthorizer.AuthorizeWrite(<user>.ID(), db)
+//   "write@db" — the same, after the handler looked the database up (MetaClient.Database / validateDatabase)
 //   "query"  — h.QueryAuthorizer.AuthorizeQuery(<user>, q, db)
 // following calls inside the package that pass the user value on.
-func (p *c19Pkg) authzReached(fd *ast.FuncDecl, body ast.Node, param string, seen map[string]bool, out map[string]bool) {
+func (p *c19Pkg) authzReached(fd *ast.FuncDecl, body ast.Node, param string, seen map[string]bool, out map[string]bool, dbChecked bool) {
 	g := p.g
 	isUser := func(e ast.Expr) bool {
 		id, ok := e.(*ast.Ident)
@@ -239,8 +240,14 @@ func (p *c19Pkg) authzReached(fd *ast.FuncDecl, body ast.Node, param string, see
 		case *ast.CallExpr:
 			fun := g.Src(x.Fun)
 			switch {
+			case strings.HasSuffix(fun, ".MetaClient.Database") || strings.HasSuffix(fun, ".validateDatabase"):
+				dbChecked = true // the handler looks the database up (404 when absent) before it authorizes
 			case strings.HasSuffix(fun, ".WriteAuthorizer.AuthorizeWrite") && len(x.Args) == 2 && isUserID(x.Args[0]):
-				out["write"] = true
+				if dbChecked {
+					out["write@db"] = true
+				} else {
+					out["write"] = true
+				}
 			case strings.HasSuffix(fun, ".QueryAuthorizer.AuthorizeQuery") && len(x.Args) == 3 && isUser(x.Args[0]):
 				out["query"] = true
 			}
@@ -262,7 +269,7 @@ func (p *c19Pkg) authzReached(fd *ast.FuncDecl, body ast.Node, param string, see
 							key := callee.Name.Name + "#" + pn
 							if !seen[key] {
 								seen[key] = true
-								p.authzReached(callee, callee.Body, pn, seen, out)
+								p.authzReached(callee, callee.Body, pn, seen, out, dbChecked)
 							}
 						}
 					}
@@ -301,7 +308,7 @@ func (p *c19Pkg) resolveHandler(f *ast.File, e ast.Expr, r *c19Route) error {
 				r.sig = cls
 				if cls == "user" && fd.Body != nil {
 					out := map[string]bool{}
-					p.authzReached(fd, fd.Body, up, map[string]bool{fd.Name.Name + "#" + up: true}, out)
+					p.authzReached(fd, fd.Body, up, map[string]bool{fd.Name.Name + "#" + up: true}, out, false)
 					for k := range out {
 						r.authz = append(r.authz, k)
 					}
@@ -555,7 +562,7 @@ func genC19(g *Gen) error {
 				if strings.HasSuffix(fun, ".AddRoutes") {
 					addCalls = append(addCalls, fd.Name.Name)
 				}
-				if strings.Contains(fun, ".mux.") || strings.HasPrefix(fun, "mux.") {
+				if strings.Contains(fun, "h.mux.") || fun == "mux.NewRouter" {
 					muxCalls = append(muxCalls, fd.Name.Name+": "+fun)
 				}
 				if fd.Name.Name == "NewHandler" && strings.HasPrefix(fun, "h.Add") {
